@@ -69,66 +69,68 @@ def run(c, facts, tier):
                     tail = unwrap(item["items"][1]["p"])
                     ok = rep["min"] == 0 and rep["max"] is None and ms0["min"] == 0 and n["items"][1]["keep"] and tail["t"] == "set" and tail["min"] == 0 and "GlobalOption" in optfn
     c.ob("C13.leading", inner, "blank* (option blank*)* consumed before lexing", ok, det)
-    # options are fed in order to update
-    fed = None
-    for st in infn.body["stmts"]:
-        e = st.get("e") if st["k"] == "expr" else st.get("init")
-        if e is None:
-            continue
-        base, chain = rx.method_chain(e)
-        ms = [m for m, _, _ in chain]
-        if "for_each" in ms or st["k"] == "for":
-            names = [m for m in ms if m not in ("?",)]
-            fe = [a for m, a, _ in chain if m == "for_each"]
-            calls = find_all(fe[0], lambda n: n.get("k") == "mcall" and n["m"] == upd.name) if fe else []
-            fed = (names, bool(calls))
-            break
-    okf = fed is not None and fed[1] and all(m in ("iter", "into_iter", "for_each", "parse_next") for m in fed[0])
-    c.ob("C13.leading", inner, "leading options are registered in input order", okf, "consumer chain %s, calls update: %s (no reordering/filtering adaptor allowed)" % (fed[0] if fed else None, fed[1] if fed else None))
+    # options are fed in order to update: element-wise traversal of the list returned by the leading pass
+    S = c06.inner_summary(b, infn)
+    opts = S.ret[0] if S.ret and len(S.ret) == 2 else None
+    lead_ev = S.parses()[0] if S.parses() else None
+    fed_t = [t for t in S.traversals() if lead_ev is not None and S.origin(t["over"]).get("ev") == lead_ev["id"] and S.origin(t["over"])["v"] == "parsed"]
+    okf, detf = None, "no traversal of the leading options found"
+    if len(fed_t) == 1 and opts is not None:
+        t = fed_t[0]
+        cs = t["cases"]
+        good_case = len(cs) == 1 and cs[0]["pat"] is None and not cs[0].get("unrecognised") and len(cs[0]["effects"]) == 1 and S.is_update_of(cs[0]["effects"][0], upd.name, opts, cs[0]["elem"])
+        okf = good_case and not t["adaptors"] and not S.unknown
+        detf = "traversal (%s) over the leading list: adaptors %s (only order-preserving iteration allowed), per element: %s%s" % (
+            t["spelling"],
+            t["adaptors"] or "none",
+            [src(x) for x in cs[0]["effects"]] if cs else None,
+            ("; statements not understood: %s" % S.unknown) if S.unknown else "",
+        )
+    elif len(fed_t) > 1:
+        okf, detf = False, "the leading list is traversed %d times" % len(fed_t)
+    c.ob("C13.leading", inner, "leading options are registered in input order", okf, detf)
     # the loop stops by Backtrack on the first non-option, leaving the rest untouched
     oalts = kw.alternatives(g, optfn) if optfn else []
     okb = bool(oalts) and all(a.lit for a in oalts) and not g.nullable(b.fn_ir(optfn))
     c.ob("C13.leading", optfn or inner, "a non-option stops the leading pass without consuming input", okb, "every option alternative starts with a keyword literal (fails with Backtrack, position restored): %s" % [a.lit for a in oalts])
 
     # ------------------------------------------------------------ C13.misplaced
-    maps = []
-    for st in infn.body["stmts"]:
-        if st["k"] != "let":
-            continue
-        base, chain = rx.method_chain(st["init"]) if st["init"] else (None, [])
-        for m, a, node in chain:
-            if m == "map" and a and a[0]["k"] == "closure":
-                mt = find_all(a[0], lambda n: n.get("k") == "match")
-                if mt and any(rx.pat_variant(p) and rx.pat_variant(p)[0] == "Token::Global" for arm in mt[0]["arms"] for p in rx.pat_cases(arm["pat"])):
-                    maps.append((st, base, chain, a[0], mt[0]))
-    if len(maps) != 1:
-        c.ob("C13.misplaced", inner, "token map handling Token::Global", None if not maps else False, "found %d token maps with a Token::Global arm" % len(maps))
+    lexk = an.role("lex")
+    entry = an.role("prec_entry")
+
+    def from_lex(val):
+        o = S.origin(val)
+        if o["v"] == "ifempty":
+            o = S.origin(o["els"])
+        return o["v"] == "parsed" and peg.Grammar(b).open(o["ir"]) is not None and o["ir"]["t"] == "ref" and o["ir"]["fn"] == lexk
+
+    trav = [t for t in S.traversals() if from_lex(t["over"]) and t["mode"] in ("map", "mutate")]
+    if len(trav) != 1:
+        c.ob("C13.misplaced", inner, "token map handling Token::Global", None if not trav else False, "found %d element-wise rewrites of the token list" % len(trav))
     else:
-        st, base, chain, clo, mt = maps[0]
-        ms = [m for m, _, _ in chain]
-        c.ob("C13.misplaced", inner, "tokens are mapped in order", all(m in ("into_iter", "iter", "enumerate", "map", "collect", "cloned") for m in ms), "adaptor chain %s" % ms)
+        t = trav[0]
+        c.ob("C13.misplaced", inner, "tokens are mapped in order", not t["adaptors"] and not S.unknown, "adaptors %s (%s)%s" % (t["adaptors"] or "none", t["spelling"], ("; statements not understood: %s" % S.unknown) if S.unknown else ""))
         glob_ok, ident_ok, others = None, None, []
-        for arm in mt["arms"]:
-            for p in rx.pat_cases(arm["pat"]):
-                pv = rx.pat_variant(p)
+        for cs in t["cases"]:
+            pats = rx.pat_cases(cs["pat"]) if cs["pat"] is not None else [None]
+            for p in pats:
+                pv = rx.pat_variant(p) if p is not None else None
                 if pv and pv[0] == "Token::Global":
                     bind = rx.pat_bindings(p)
-                    stmts = rx.stmts_of(arm["body"])
-                    tail = rx.tail_expr(arm["body"]) if arm["body"]["k"] == "block" else arm["body"]
-                    upcalls = find_all(arm["body"], lambda n: n.get("k") == "mcall" and n["m"] == upd.name and len(n["args"]) == 1 and bind and rx.is_var(n["args"][0], bind[0]))
-                    glob_ok = bool(upcalls) and tail is not None and src(tail) == "Token::Test(Test::True)"
-                elif rx.is_catchall(p) and p["k"] == "ident":
-                    ident_ok = rx.is_var(arm["body"], p["name"])
+                    res = cs["result"]
+                    ups = [x for x in cs["effects"] if opts is not None and S.is_update_of(x, upd.name, opts, bind[0] if bind else None)]
+                    rest = [x for x in cs["effects"] if x not in ups]
+                    glob_ok = len(ups) == 1 and not rest and isinstance(res, dict) and src(res) == "Token::Test(Test::True)" and not cs.get("guard")
+                elif p is None or rx.is_catchall(p):
+                    ident_ok = cs["result"] == "same" and not cs["effects"]
                 else:
                     others.append(F.psrc(p))
-        c.ob("C13.misplaced", inner, "Token::Global(v) → update(&v); Token::Test(Test::True)", glob_ok, "the misplaced-option arm registers the option and yields -true: %s" % glob_ok, witness="-name x -threads 3" if not glob_ok else None)
-        c.ob("C13.misplaced", inner, "every other token is passed through unchanged", ident_ok and not others, "identity catch-all: %s; other arms: %s" % (ident_ok, others))
-        # the mapped vector is what the precedence parser receives
-        entry = an.role("prec_entry")
-        mapped = rx.pat_bindings(st["pat"])
-        uses = find_all(infn.body, lambda n: n.get("k") == "mcall" and n["m"] == "parse_next" and n["args"] and find_all(n["args"][0], lambda x: x.get("k") == "path" and x["segs"] == mapped))
-        later = [u for u in uses if u["l"] > st["l"]]
-        c.ob("C13.misplaced", inner, "the precedence parser receives the mapped tokens", bool(later), "parse_next over %s after the map statement: %d site(s)" % (mapped, len(later)))
+        c.ob("C13.misplaced", inner, "Token::Global(v) → update(&v); Token::Test(Test::True)", glob_ok, "the misplaced-option case registers the option once and yields -true: %s" % glob_ok, witness="-name x -threads 3" if not glob_ok else None)
+        c.ob("C13.misplaced", inner, "every other token is passed through unchanged", bool(ident_ok) and not others, "identity for the remaining tokens: %s; other cases: %s" % (ident_ok, others))
+        # the rewritten list is what the precedence parser receives
+        ap = [e for e in S.events if e["e"] == "apply" and e["fn"] == entry]
+        recv_ok = len(ap) == 1 and ap[0]["arg"]["v"] == "list" and ap[0]["arg"]["from"] == t["id"]
+        c.ob("C13.misplaced", inner, "the precedence parser receives the mapped tokens", recv_ok, "%s is applied to the list produced by the rewrite: %s" % (entry, recv_ok))
     # no Global reaches the tree: with the map above, Token::Global is never an input of the precedence parser
     # (the arm of atom that would build Expression::Global is then dead; C03.never-built re-checks it for the panic site)
 
@@ -164,14 +166,16 @@ def run(c, facts, tier):
         c.ob("C13.last-wins", upd.key, "%s assigns (never merges)" % var, ok, "arm body `%s` — a plain assignment makes the last occurrence win" % det, witness="-threads 2 -threads 8" if ok is False else None)
     # two different options must not write the same field with different meaning: informational
     # the options object that is updated (leading pass and token map) is the one returned, and it starts from the defaults
-    recvs = {rx.var_name(n["recv"]) for n in find_all(infn.body, lambda n: n.get("k") == "mcall" and n["m"] == upd.name)}
-    tl = rx.tail_expr(infn.body)
-    ret0 = None
-    if tl is not None and tl["k"] == "call" and tl["args"] and tl["args"][0]["k"] == "tuple":
-        ret0 = rx.var_name(tl["args"][0]["elems"][0])
-    inits = [st for st in infn.body["stmts"] if st["k"] == "let" and st["pat"]["k"] == "ident" and st["pat"]["name"] == ret0]
-    init_ok = len(inits) == 1 and src(inits[0]["init"]) in ("RunOptions::default()", "Default::default()", "RunOptions::new()")
-    c.ob("C13.last-wins", inner, "one options object: created from the defaults, updated in input order, returned", len(recvs) == 1 and ret0 in recvs and init_ok, "update() receivers %s; returned %s; initialised by %s" % (sorted(x for x in recvs if x), ret0, src(inits[0]["init"]) if inits else None))
+    upd_calls = find_all(infn.body, lambda n: n.get("k") == "mcall" and n["m"] == upd.name)
+    recv_same = opts is not None and all(rx.peel(n["recv"]).get("k") == "path" and S.env.get(rx.peel(n["recv"])["segs"][0]) is opts for n in upd_calls)
+    init_ok = opts is not None and opts["v"] == "fresh" and opts.get("ty") == "RunOptions" and opts.get("ctor") in ("default", "new")
+    c.ob(
+        "C13.last-wins",
+        inner,
+        "one options object: created from the defaults, updated in input order, returned",
+        bool(upd_calls) and recv_same and init_ok,
+        "%d update() calls, all on the returned object: %s; it is initialised by %s" % (len(upd_calls), recv_same, opts.get("src") if opts else None),
+    )
     dfn = facts.fns.get("<RunOptions as Default>::default")
     okd, detd = None, "Default impl for RunOptions not found (derived?)"
     if dfn is not None:
